@@ -31,6 +31,7 @@ def run(chk):
     chk.rule("local-step", "evolve_0site / 1site / 2site (abstract runs with recorders, several shapes of the local tensor incl. single numbers): one Krylov exponential of coeff * tau * H_eff of the "
              "right kind, on the flattened local tensor, with the matrix-vector product in the tensor's shape", 8)
     TR.local_step_rule(chk, src, "local-step")
+    TR.regularized_inversion_rule(chk, src, "pack-unpack")
     if chk.tier == "thorough":
         TR.heff_networks(chk, src, topologies=("binary", "star", "two"))
 
